@@ -1431,6 +1431,19 @@ func (c *FuncCtx) applyContract(st *State, con *Contract, sig *types.Signature, 
 		}
 		return results
 	}
+	if specCall && con.Pure && len(results) > 0 {
+		// the postconditions of one and the same application are assumed once
+		memo := "$specpost:" + key
+		for _, r := range results {
+			memo += " " + r.S
+		}
+		if st.facts[memo] {
+			st.bound = saved
+			st.old = savedOld
+			return results
+		}
+		st.facts[memo] = true
+	}
 	if specCall {
 		c.specPostDepth++
 		defer func() { c.specPostDepth-- }()
